@@ -323,6 +323,95 @@ def cascade(ctx: Any) -> List[Ob]:
     return obs
 
 
+def _rule_atoms(ctx: Any, f: FuncInfo) -> Dict[str, Tuple[str, Any, Any]]:
+    """kind -> (normalised text of the atomic predicate, value when the rule is satisfied, value when it is violated)."""
+    prog = ctx.prog
+    out: Dict[str, Tuple[str, Any, Any]] = {}
+    from sa.fd import Sym
+
+    for t in [n for n in walk_local_ordered(f.node) if isinstance(n, ast.If)]:
+        for x in ast.walk(t.test):
+            ks = _test_kinds(ctx, f, x) if isinstance(x, (ast.Compare, ast.Call)) else []
+            if len(ks) != 1:
+                continue
+            k = ks[0]
+            if isinstance(x, ast.Compare):
+                o = x.ops[0]
+                viol = True
+                if k == 'underscore' and isinstance(o, ast.Eq):
+                    viol = False
+                if isinstance(o, ast.NotIn):
+                    viol = False
+                if k in ('whole-length', 'service-length', 'label-length'):
+                    # which truth value means "too long"
+                    try:
+                        p_, op_ = lf.comparison(prog, f.module, x, lambda y: 'L' if isinstance(y, (ast.Call, ast.Name)) and not prog.try_fold(f.module, y)[0] else None)
+                        coef = p_.get((('L', 1),), 0)
+                        viol = coef < 0
+                    except lf.NotLinear:
+                        continue
+                out.setdefault(k, (norm(x), not viol, viol))
+            elif isinstance(x, ast.Call) and k in ('has-letter', 'charset', 'control-chars'):
+                ok_v, bad_v = (Sym('match'), None) if k != 'control-chars' else (None, Sym('match'))
+                out.setdefault(k, (norm(x), ok_v, bad_v))
+    return out
+
+
+@rule('C19.TABLE', 'D', expect_min=10)
+def table(ctx: Any) -> List[Ob]:
+    """The validator as a decision table over its documented rules: with every rule satisfied a name
+    with a protocol trailer is accepted; with any single service-label rule violated no path that saw a
+    protocol trailer accepts (in strict mode, and in non-strict mode except for the rules that mode
+    relaxes); a violated instance-label rule is never accepted."""
+    R = 'C19.TABLE'
+    from sa import fd
+
+    f = ctx.prog.func(VALIDATOR)
+    cfg = cfg_of(f.node)
+    atoms_by_kind = _rule_atoms(ctx, f)
+    need = {'whole-length', 'underscore', 'service-length', 'double-hyphen', 'edge-hyphen', 'has-letter', 'charset', 'control-chars', 'label-length'}
+    missing = need - set(atoms_by_kind)
+    if missing:
+        raise AnalysisError(f'anchor vanished: rule predicates {sorted(missing)} not found in the validator')
+
+    def eff(node: Any, evl: Any) -> List[Any]:
+        out: List[Any] = []
+        if node.kind == 'stmt' and isinstance(node.ast, ast.Assign) and isinstance(node.ast.value, ast.Constant) and isinstance(node.ast.value.value, bool):
+            out.append(f'FLAG={node.ast.value.value}')
+        if node.kind == 'test' and 'label-length' in _test_kinds(ctx, f, node.ast):
+            out.append('INSTANCE')
+        return out
+
+    obs: List[Ob] = []
+    relaxed_in_non_strict = {'service-length'}
+    for strict in (True, False):
+        base = {'strict': strict}
+        for k, (txt, okv, badv) in atoms_by_kind.items():
+            base[txt] = okv
+        oc, _ = fd.run_paths(ctx.prog, f.module, cfg, base, eff, loop_bound=1)
+        acc = [t for t in oc if any(isinstance(x, tuple) and x[0] == 'ret' for x in t) and 'FLAG=True' in t]
+        obs.append(ob(R, f, f'strict={strict}, every rule satisfied', 'a name with a protocol trailer is accepted', bool(acc)))
+        for k, (txt, okv, badv) in sorted(atoms_by_kind.items()):
+            atoms = dict(base)
+            atoms[txt] = badv
+            oc, _ = fd.run_paths(ctx.prog, f.module, cfg, atoms, eff, loop_bound=1)
+            accepting = [t for t in oc if any(isinstance(x, tuple) and x[0] == 'ret' for x in t)]
+            if k in ('label-length', 'control-chars'):
+                bad = [t for t in accepting if 'INSTANCE' in t or k == 'control-chars' and 'INSTANCE' in t]
+                want_reject = True
+            elif k == 'whole-length':
+                bad = accepting
+                want_reject = True
+            else:
+                want_reject = strict or k not in relaxed_in_non_strict
+                bad = [t for t in accepting if 'FLAG=True' in t]
+            if want_reject:
+                obs.append(ob(R, f, f'strict={strict}, rule `{k}` violated ({txt})', 'the name is rejected (no accepting path)', not bad, f'{len(bad)} accepting path(s) remain'))
+            else:
+                obs.append(ob(R, f, f'strict={strict}, rule `{k}` relaxed', 'non-strict mode accepts longer service labels', bool([t for t in accepting if 'FLAG=True' in t])))
+    return obs
+
+
 @rule('C19.TXT', 'N', expect_min=5)
 def txt(ctx: Any) -> List[Ob]:
     """TXT codec agreement (RFC 6763 section 6): writer and reader both use a
@@ -383,4 +472,4 @@ EXPLANATION = (
     'writer/reader agreement of the TXT item framing. Not decided: agreement of the whole cascade with the grammar on every string [X]; '
     'lone surrogates (UnicodeEncodeError) are excluded by assumption A4.'
 )
-RULES = [total, regex, const, cascade, txt]
+RULES = [total, regex, const, cascade, table, txt]
